@@ -286,6 +286,14 @@ func ApplyDefFault(def []byte, f DefFault) []byte {
 			root["spec_version"] = f.Repl
 		}
 		long := func(s string) string { return s + " " + strings.Repeat("and so on ", 9) }
+		switch f.Seed % 4 {
+		case 2:
+			// names in another script, beyond the limits counted in characters
+			long = func(s string) string { return s + " " + strings.Repeat("и так далее ", 9) }
+		case 3:
+			// names in another script, within the limits counted in characters (and beyond them counted in bytes)
+			long = func(s string) string { return "Категория номер двадцать" }
+		}
 		nodes, _ := root["nodes"].([]any)
 		for _, n := range nodes {
 			nm, _ := n.(map[string]any)
@@ -293,8 +301,8 @@ func ApplyDefFault(def []byte, f DefFault) []byte {
 			for _, a := range acts {
 				am, _ := a.(map[string]any)
 				if am["type"] == "set_run_result" {
-					if v, ok := am["name"].(string); ok && v != "" {
-						am["name"] = long(v)
+					if v, ok := am["name"].(string); ok && v != "" && f.Seed%4 < 2 {
+						am["name"] = long(v) // (result names are restricted to a character class: only categories go into another script)
 					}
 					if v, ok := am["category"].(string); ok && v != "" {
 						am["category"] = long(v)
@@ -302,7 +310,7 @@ func ApplyDefFault(def []byte, f DefFault) []byte {
 				}
 			}
 			if r, _ := nm["router"].(map[string]any); r != nil {
-				if v, ok := r["result_name"].(string); ok && v != "" && f.Seed%2 == 0 {
+				if v, ok := r["result_name"].(string); ok && v != "" && f.Seed%4 == 0 {
 					r["result_name"] = long(v)
 				}
 				cats, _ := r["categories"].([]any)
